@@ -10,7 +10,7 @@ open AmVerif
 /-- an application order in which every op arrives after everything it refers to -/
 inductive Admissible : List Op → Prop
   | nil : Admissible []
-  | snoc {ops : List Op} {N : Op} : Admissible ops → WF (ops ++ [N]) → Fresh ops N → Admissible (ops ++ [N])
+  | snoc {ops : List Op} {N : Op} : Admissible ops → OpsWF (ops ++ [N]) → Fresh ops N → Admissible (ops ++ [N])
 
 theorem buildStore_snoc (w : Op → Nat) (ops : List Op) (N : Op) :
     buildStore w (ops ++ [N]) = insertRemote w (buildStore w ops) N := by
@@ -27,7 +27,7 @@ theorem buildStore_inv (w : Op → Nat) {ops : List Op} (h : Admissible ops) :
     rw [buildStore_snoc]
     exact insertRemote_inv hw hf ih
 
-theorem Admissible.wf {ops : List Op} (h : Admissible ops) : WF ops := by
+theorem Admissible.wf {ops : List Op} (h : Admissible ops) : OpsWF ops := by
   cases h with
   | nil =>
     exact ⟨List.Pairwise.nil, fun _ h => (by cases h), fun _ h => (by cases h), fun _ h => (by cases h),
@@ -104,7 +104,7 @@ theorem refsSmallerB_sound {ops : List Op} (h : refsSmallerB ops = true) : RefsS
   · rw [hi] at h; cases h
   · exact h
 
-theorem wfB_sound {ops : List Op} (h : wfB ops = true) : WF ops := by
+theorem wfB_sound {ops : List Op} (h : wfB ops = true) : OpsWF ops := by
   unfold wfB at h
   simp only [Bool.and_eq_true, List.all_eq_true, Bool.or_eq_true,
     Bool.not_eq_eq_eq_not, Bool.not_true, beq_iff_eq, beq_eq_false_iff_ne, ne_eq] at h
